@@ -227,7 +227,16 @@ class CQN(RLAlgorithm):
         :return: Loss from learning
         :rtype: float
         """
-        states, actions, rewards, next_states, dones = experiences
+        if isinstance(experiences, (tuple, list)):
+            states, actions, rewards, next_states, dones = experiences
+        else:
+            # TensorDict as returned by the replay buffer samplers
+            states = experiences["obs"]
+            actions = experiences["action"]
+            rewards = experiences["reward"]
+            next_states = experiences["next_obs"]
+            dones = experiences["done"]
+
         if self.accelerator is not None:
             actions = actions.to(self.accelerator.device)
             rewards = rewards.to(self.accelerator.device)
